@@ -102,3 +102,11 @@ check("C09", "exploration",
       TRUST + " Child-machine sources poll on a timer; their schedule tree is explored up to a deviation bound (reported as a cap).",
       "stateless schedule exploration under a virtual clock, exhaustive over scripts x tie orders (deviation-bounded for child machines)",
       "E2-schedule-explorer + VLoop + E3-thread-scheduler", "DESIGN.md section 4 C09")
+
+check("C14", "model_checking",
+      "BFS over OPERATION sequences (start, events, stop, virtual-time tick, snapshot/restore[/start]) to the depth bound with canonical-state "
+      "deduplication on both engines; every step is checked against the lifecycle automaton of the statement and, after stop(), a census of "
+      "asyncio tasks / timer handles / virtual threads / actors / registry, followed by virtual time passing with a silent log.",
+      TRUST + " Depth-bounded (reported as a cap); TICK uses the default timer order.",
+      "explicit-state BFS over lifecycle operation sequences with specification-automaton oracle and resource census",
+      "E1-explicit-state + VLoop + E3-thread-scheduler", "DESIGN.md section 4 C14")
